@@ -1296,6 +1296,12 @@ def process_template(unit, tpl_path=None, canary=False):
                 spec = FnSpec(name)
                 i = parse_fn_directives(lines, i, spec)
                 ctx.cur = (path, kind + ' ' + name)
+                # searching is pure (C14, for the record): no data structure the search code reads may have interior mutability;
+                # the NFA builder types are the only ones that use RefCell, and they are not reachable from an automaton
+                if kind == 'struct' and name not in ('NfaBuilder', 'NfaBuilderState'):
+                    bad = [t.text for t in L.code_toks(text) if t.kind == 'ident' and re.match(r'^(Cell|RefCell|UnsafeCell|OnceCell|Mutex|RwLock|Atomic\w*)$', t.text)]
+                    if bad:
+                        raise ExtractError('%s: struct %s uses interior mutability (%s): the purity argument for searches no longer applies' % (path, name, ', '.join(sorted(set(bad)))))
                 ctx.items.append({'file': path, 'item': ctx.cur[1], 'sha256': hashlib.sha256(text.encode()).hexdigest()[:16],
                                   'lines': text.count('\n') + 1})
                 if 'keepeq' in spec.rules:
